@@ -77,13 +77,51 @@ def family(seed, tier):
     return [(lambda s: (s.s["name"], s.doc()))(chain(seed, k, tier)) for k in range(n)]
 
 
+def fault_pass(seed, tier):
+    """The one-time adjustments happen exactly once for exactly their amounts even when a statement of their block fails once:
+    every statement of the mint block and of the mint-burn block of one chain fails once (the block must be rolled back and applied
+    again as a whole); the final ledger must equal the fault-free run's. The zeroing heights are left to C10 (open finding there)."""
+    import json, shutil
+    import c02
+    work = vlib.scratch("c15f-")
+    try:
+        vh = vlib.go_build("vh", "vh")
+        s = chain(seed, 0, tier)
+        doc = s.doc()
+        doc["name"] = "c15-fault"
+        sc = doc["sched"]
+        path = c02.crash_run(vh, doc, work, "c15-stmt", [sc["V204"], sc["V204Burn"]], 0, 0, span=2, mode="stmtfault")
+        evs = [json.loads(l) for l in open(path)]
+        if any(e["ev"] == "Infra" for e in evs):
+            raise vlib.Infra("fault experiment infrastructure failure")
+        exps = [e for e in evs if e["ev"] == "FaultExp"]
+        bad = [e for e in exps if not (e.get("equal") and e.get("contOK", True))]
+        if bad:
+            keep = os.path.join(vlib.replay_dir(PID), "stmtfault-seed%d.ndjson" % seed)
+            shutil.copyfile(path, keep)
+            json.dump(doc, open(keep + ".scenario.json", "w"))
+            sys.stdout.write("  after a failed statement (event %s of block %s, %s) the one-time adjustment is missing / partial: %s\n"
+                             % (bad[0]["k"], bad[0]["h"], bad[0].get("site"), bad[0].get("diffTables")))
+            vlib.violation(PID, keep)
+        return len(exps), len(bad)
+    finally:
+        shutil.rmtree(work, ignore_errors=True)
+
+
 def main():
-    return lcheck.run_check(PID, family, {"C15"},
+    n, bad = fault_pass(vlib.seed(), vlib.tier())
+    rc = check(n)
+    return 1 if bad else rc
+
+
+def check(nfault):
+    return lcheck.run_check(PID, family, {"C15"}, extra_cov={"statement_fault_experiments": nfault},
         rule="configuration sweep over six placements of the developer-reward / 2.0.2 / mint / mint-burn activations relative to the 144-block cadence "
              "(on it, just before, just after, coinciding with each other), with and without prior balances on the old burn, burn, mint and developer "
              "addresses with funds sent to them between the adjustments, and with the mint address (a key pair of the scenario) spending all / part of single minted assets before the burn; TLC checks per block: developer payout iff h >= activation and h % 144 = 0 with "
              "the table shares (x144 from 2.0.2), each one-time adjustment exactly at its height for exactly the specified amounts and at no other height "
-             "(any other delta on the special addresses is an issue); non-trivial = every chain",
+             "(any other delta on the special addresses is an issue); in addition every statement of the mint block and of the mint-burn block of one "
+             "chain fails once and the resumed ledger must equal the fault-free one; non-trivial = every chain",
         corrupt=lcheck.corrupt_balance)
 
 
